@@ -36,6 +36,7 @@ type G struct {
 	// bytes attribute values and bodies, trace and span ids, durations. The
 	// choices are drawn on the Ext stream after the ordinary Gen draw.
 	NumRamp bool
+	nested  int // 0 undecided, 1 no, 2 yes: see nestedFamily
 	pending int // items promised by nItems and not yet counted in Items
 	// Plain biases toward attribute-free items (cheap, large batches).
 	Plain bool
@@ -312,8 +313,57 @@ func (g *G) resource(r pcommon.Resource) {
 		g.attrs(r.Attributes())
 		r.SetDroppedAttributesCount(pick(g, u32Pool))
 	}
+	g.nestedFamily(r.Attributes())
 	if g.Narrow > 0 {
 		r.Attributes().Clear()
+	}
+}
+
+// nestedFamily replaces, now and then (Ext stream), the attributes of a
+// resource or scope by a member of a family whose members share a map-valued
+// (or list-of-maps-valued) attribute and differ only in attributes that sort
+// before or after it, or only inside the nested value: identities that an
+// id / grouping computation must keep apart although most of the rendering is
+// equal.
+func (g *G) nestedFamily(m pcommon.Map) {
+	if g.Bare || g.Wide {
+		return
+	}
+	if g.nested == 0 {
+		// decided once per batch, so that a batch has several members of the family or none
+		g.nested = 1
+		if g.t.Chance(core.Ext, 1, 6) {
+			g.nested = 2
+		}
+	}
+	if g.nested != 2 || !g.t.Chance(core.Ext, 2, 3) {
+		return
+	}
+	m.Clear()
+	x := func(n int) int { return g.t.Draw(core.Ext, n) }
+	fill := func(mm pcommon.Map) {
+		mm.PutStr("app", "shop")
+		mm.PutStr("tier", []string{"web", "web", "db"}[x(3)])
+		if x(3) == 0 {
+			mm.PutEmptyMap("zz").PutInt("n", int64(x(2)))
+		}
+	}
+	switch x(3) {
+	case 0:
+		fill(m.PutEmptyMap("labels"))
+	case 1:
+		fill(m.PutEmptySlice("labels").AppendEmpty().SetEmptyMap())
+	default:
+		sl := m.PutEmptySlice("labels")
+		sl.AppendEmpty().SetStr("a")
+		fill(sl.AppendEmpty().SetEmptyMap())
+	}
+	if x(2) == 1 {
+		m.PutStr("a.first", []string{"1", "2"}[x(2)])
+	}
+	m.PutStr("service.instance.id", []string{"i-1", "i-2", "i-3"}[x(3)])
+	if x(3) == 0 {
+		m.PutInt("zone", int64(x(2)))
 	}
 }
 
@@ -350,6 +400,7 @@ func (g *G) scope(s pcommon.InstrumentationScope) {
 		g.attrs(s.Attributes())
 		s.SetDroppedAttributesCount(pick(g, u32Pool))
 	}
+	g.nestedFamily(s.Attributes())
 	if g.Narrow > 0 {
 		s.Attributes().Clear()
 	}
